@@ -120,7 +120,7 @@ def gen_element(rnd, position, n):
     if tail:
         cls = rnd.choice(["VPool", "VPool", "VPoolNow", "VPoolEmpty"])  # VPoolEmpty, VDecoFalsy: objects whose truth value is False
     else:
-        cls = rnd.choice(["VCtrl", "VDeco", "VDeco2", "VDecoFalsy"]) if position == 0 else rnd.choice(["VDeco", "VDeco2", "VDecoFalsy"])
+        cls = rnd.choice(["VCtrl", "VDeco", "VDeco2", "VDecoFalsy"]) if position == 0 else rnd.choice(["VDeco", "VDeco2", "VDecoFalsy"] * 3 + ["VCtrl"])  # now and then a stage that is not a pool itself
     syntax = rnd.choice(["tag", "tag", "type"]) if cls != "VPoolNow" else "tag"
     if not tail and rnd.random() < 0.08:
         cls, syntax = "VDecoKw", "type"  # its target is keyword-only: only the all-keyword __type__ syntax can place it
@@ -184,8 +184,8 @@ def gen_case(rnd, spec):
     if 3 <= n < 1000 and rnd.random() < 0.12:
         # one stage configured once and used twice: an anchored element and an alias of it (each occurrence is a stage of its own)
         i = rnd.randrange(n - 1)
-        if elements[i]["cls"] == "VCtrl":
-            i = 1  # a controller heads a pipeline: repeat a decorator instead
+        if elements[i]["cls"] == "VCtrl" and elements[1]["cls"] != "VCtrl":
+            i = 1  # repeat a decorator rather than a controller
         j = rnd.randint(i + 1, n - 1)
         keys = rnd.sample(KEYS, rnd.randint(1, 3))
         elements[i] = dict(elements[i], form="map", args=[], kwargs=[(k, ("scalar", rnd.choice(SCALARS[:17]))) for k in keys], anchor="stage%d" % i)
